@@ -88,6 +88,10 @@ func newResult(t reflect.Type, opts resultOptions) (result, error) {
 				fmt.Sprintf("cannot parse group %q", opts.Group), err)
 		}
 		rg := resultGrouped{Type: t, Group: g.Name, Flatten: g.Flatten}
+		if g.Flatten && len(opts.As) > 0 {
+			return nil, newErrInvalidInput(fmt.Sprintf(
+				"cannot use dig.As with flatten: flatten was used with group:%q", g.Name), nil)
+		}
 		if len(opts.As) > 0 {
 			var asTypes []reflect.Type
 			for _, as := range opts.As {
